@@ -152,23 +152,46 @@ add("unsync_cache.rs", "c17_unbounded_never_evicts_for_size", {"C17", "C03"}, "q
 add("unsync_cache.rs", "c04_capacity_arithmetic", {"C04", "C03", "C12"}, "quick", 30, "capacity predicates for all (weighted_size, weight, capacity)", "weighted_size < 2^63")
 
 # ------------------------------------------------------------------ S: sync cache, function level, container models
-QUICK_SYNC = {   # at most 3 heavy sync queries per property in the quick tier (each needs 40-300 s and 8-14 GB)
+QUICK_SYNC = {   # sync queries per property in the quick tier (10-90 s each with the field-sensitivity setting)
     "s_get0_live": {"C01", "C03", "C08", "C14"},
-    "s_insert_update0": {"C01", "C05"},
-    "s_iterfilter0_before_watermark_no_expiry": {"C01", "C16"},
-    "s_get0_ttl_deadline": {"C05"},
+    "s_get_absent": {"C01", "C14"},
+    "s_insert_update0": {"C01", "C05", "C06"},
+    "s_insert_new": {"C01", "C05"},
+    "s_iterfilter0_before_watermark_no_expiry": {"C01", "C16", "C07"},
+    "s_get0_ttl_deadline": {"C05", "C01"},
     "s_contains0_ttl_deadline": {"C05", "C15"},
     "s_get0_tti_deadline": {"C06"},
-    "s_apply_reads_hit0": {"C06", "C08", "C12"},
+    "s_contains1_tti_1ns_before": {"C06", "C15"},
+    "s_apply_reads_hit0": {"C06", "C08", "C12", "C14"},
+    "s_apply_reads_hit1_watermark": {"C07", "C12"},
     "s_apply_reads_miss": {"C14"},
     "s_contains_absent": {"C14", "C15"},
+    "s_contains0_before_watermark": {"C07"},
+    "s_contains1_same_reading_as_watermark": {"C07"},
+    "s_get1_same_reading_as_watermark": {"C07"},
+    "s_get0_before_watermark": {"C07"},
     "s_invalidate_all_2": {"C07"},
-    "s_iterfilter0_ttl_deadline": {"C16"},
+    "s_invalidate_all_again": {"C07"},
+    "s_iterfilter0_ttl_deadline": {"C16", "C05"},
     "s_iterfilter1_live": {"C16", "C15"},
     "l_upsert_update_n1": {"C03", "C04", "C10"},
-    "l_upsert_update_n2_lru_ttl": {"C06", "C10", "C12"},
-    "l_remove_n1": {"C10", "C11"},
-    "l_remove_n2_mru": {"C07", "C08"},
+    "l_upsert_update_n2_lru_ttl": {"C06", "C10", "C12", "C05"},
+    "l_upsert_admit_fits_unbounded": {"C03", "C10", "C04"},
+    "l_upsert_admit_fits_cap": {"C03", "C04", "C10"},
+    "l_evict_lru_exact_n2": {"C12", "C04", "C10"},
+    "l_purge_one_ttl_deadline": {"C05", "C10", "C03"},
+    "l_purge_one_tti_live": {"C06", "C03"},
+    "l_purge_one_watermark": {"C07", "C10"},
+    "l_remove_n1": {"C10", "C11", "C07"},
+    "l_remove_n2_mru": {"C07", "C08", "C10"},
+    "s_upsert_update0": {"C10", "C12", "C06"},
+    "s_upsert_update1_stale": {"C10", "C03", "C08"},
+    "s_upsert_new_fits": {"C03", "C10", "C12", "C05"},
+    "s_upsert_new_fits_stale": {"C03", "C04", "C10"},
+    "s_remove0": {"C07", "C10", "C11", "C08"},
+    "s_evict_lru_exact": {"C04", "C12", "C10"},
+    "s_evict_lru_within": {"C03", "C04"},
+    "s_purge_nothing": {"C03", "C05", "C06"},
 }
 def _sync():
     src = open(os.path.join(os.path.dirname(os.path.dirname(os.path.abspath(__file__))), "kani", "sync_base_cache.rs")).read()
@@ -221,7 +244,7 @@ def _sync():
         if name in ("s_get0_live", "l_upsert_update_n2_lru_ttl", "l_upsert_admission_n2", "l_remove_n2_mru", "l_evict_lru_exact_n2", "l_purge_one_ttl_deadline", "s_apply_reads_hit0"):
             prim |= {"C08"}
         prim = set(QUICK_SYNC.get(name, ()))
-        add("sync_base_cache.rs", name, props, "quick", 120, f"sync {fn[2:]}{rest} [{name}]", bs, quick=prim,
+        add("sync_base_cache.rs", name, props, "quick", 60, f"sync {fn[2:]}{rest} [{name}]", bs, quick=prim,
             required=("admitted over victims", "newcomer rejected") if name.startswith("l_upsert_admission") else ())
 _sync()
 add("sync_base_cache.rs", "s_k1_is_expired_wo", {"C05", "C07", "C08"}, "quick", 5, "sync is_expired_entry_wo <=> lm < valid_after or lm + ttl <= now", "all instants/durations symbolic, ns resolution")
@@ -235,7 +258,7 @@ add("sync_cache.rs", "schedule_write_op_on_a_full_queue_runs_maintenance_and_ret
 add("sync_cache.rs", "schedule_write_op_with_room_enqueues_once", {"C09", "C08"}, "quick", 60, "schedule_write_op with room: flag free or busy", "model queue capacity 2")
 
 add("sync_base_cache.rs", "s_eviction_counters_never_overflow", {"C10", "C08"}, "quick", 2, "EvictionCounters saturating arithmetic", "all u64 totals, u32 weights")
-add("sync_cache.rs", "invalidate_of_a_pending_insert_queues_its_removal", {"C07", "C11", "C10"}, "quick", 150, "Cache::invalidate of a key whose Upsert is still queued", "n=1 admitted + 1 pending; model queue 4", quick={"C07", "C11"})
+add("sync_cache.rs", "invalidate_of_a_pending_insert_queues_its_removal", {"C07", "C11", "C10"}, "quick", 60, "Cache::invalidate of a key whose Upsert is still queued", "n=1 admitted + 1 pending; model queue 4", quick={"C07", "C11", "C10"})
 add("sync_builder.rs", "sync_policy_reports_exactly_the_knobs", {"C17"}, "quick", 100, "sync builder: every knob combination -> policy()", "all capacities, durations <= 1000 y")
 add("sync_builder.rs", "sync_builder_new_equals_max_capacity", {"C17"}, "quick", 100, "sync CacheBuilder::new(n) == max_capacity(n); initial_capacity inert for policy", "all n")
 
